@@ -54,8 +54,10 @@
 (* answered Ok until a stop answered Ok; for a storage device the state the  *)
 (* driver answered last IS the driver-side truth (the HAL is required to     *)
 (* report exactly that state), so it runs iff that answer was Running; the   *)
-(* one exception: Armed answered to a set while running means "settings      *)
-(* accepted", the device keeps running (as for cameras).                     *)
+(* one exception: a set does not stop a device - Armed answered while it is  *)
+(* running means "settings accepted", any other answer "rejected"; in both   *)
+(* cases the device keeps what it has open until it is asked to stop (as for *)
+(* cameras; the real writers keep their file open when they reject settings).*)
 (* STRICT=1: a storage device runs only after a start answered Running,      *)
 (* until a stop answered something else.                                     *)
 (***************************************************************************)
@@ -97,8 +99,8 @@ RunAfter(c, r, run) ==
   ELSE IF StrictRun THEN (IF c = "start" THEN (IF r = RUNNING THEN TRUE ELSE run)
                           ELSE IF c = "stop" THEN (IF r = RUNNING THEN run ELSE FALSE)
                           ELSE run)
-  ELSE (IF c = "set" /\ r = ARMED THEN run          \* accepting settings does not stop a running device
-        ELSE IF c \in {"set", "start", "append", "stop"} THEN r = RUNNING ELSE run)
+  ELSE (IF c = "set" THEN (r = RUNNING \/ run)      \* neither accepting nor rejecting settings stops a running device
+        ELSE IF c \in {"start", "append", "stop"} THEN r = RUNNING ELSE run)
 
 \* ---- a call the driver receives ------------------------------------------------------------------------------
 DrvRules(e) ==
